@@ -10,6 +10,7 @@ func init() {
 	verifRegister("VerifC10_EOrder", VerifC10_EOrder)
 	verifRegister("VerifC10_EPrior", VerifC10_EPrior)
 	verifRegister("VerifC10_KBuiltins", VerifC10_KBuiltins)
+	verifRegister("VerifC10_EShared", VerifC10_EShared)
 }
 
 // programs whose result text goes through code that ranges over Go maps
@@ -248,4 +249,40 @@ func c10StripCounter(s string) string {
 		}
 		s = s[j:]
 	}
+}
+
+// One parsed Program loaded into several fresh runtimes of the process, one after the other: every
+// load gives the value and the step count of the first (nothing an earlier runtime did to values it
+// obtained from the program is visible to a later one).  Programs: the C09 corpus (in-place
+// mutation of values obtained from literals through every route, form-rebuilding operators).
+func VerifC10_EShared() {
+	n := len(c09Progs) + len(c09Forms)
+	pi := vConcInt(vndChoice("prog", n))
+	var src string
+	if pi < len(c09Progs) {
+		src = c09Progs[pi]
+	} else {
+		src = c09Forms[pi-len(c09Progs)]
+	}
+	mk := func() *lisp.LEnv {
+		env := newEnv(nil, lisp.WithMaxSteps(1<<40))
+		env.PutGlobal(lisp.Symbol("i"), lisp.Int(1))
+		env.PutGlobal(lisp.Symbol("j"), lisp.Int(4))
+		env.PutGlobal(lisp.Symbol("k"), lisp.Int(1))
+		return env
+	}
+	e1 := mk()
+	prog, err := lisp.ReadProgram(e1.Runtime.Reader, "prog", strings.NewReader(src))
+	vAssert(err == nil, "program parses")
+	r1 := e1.LoadProgram(prog)
+	s1 := e1.Runtime.Steps()
+	vObserve("prog", src)
+	vObserve("first", outcome(r1))
+	for round := 0; round < 2; round++ {
+		e := mk()
+		r := e.LoadProgram(prog)
+		vAssert(outcome(r) == outcome(r1), "a later fresh runtime loading the same Program gets the same value; got "+outcome(r))
+		vAssert(e.Runtime.Steps() == s1, "and uses the same number of steps")
+	}
+	vCover("end")
 }
